@@ -5,7 +5,7 @@
 
 use crate::core::*;
 use crate::gen::{plain, seed, Seed, P};
-use crate::hutil::{deliver, to_http_request};
+use crate::hutil::{deliver, with_http_request};
 use actix_http::{HttpMessage as _, Request};
 use actix_web::http::header::{self as h, Header};
 use std::str::FromStr;
@@ -51,7 +51,6 @@ fn fromstr_all(s: &str) -> u32 {
     rec(h::ByteRangeSpec::from_str(s).is_ok());
     rec(h::ContentRangeSpec::from_str(s).is_ok());
     rec(h::CacheDirective::from_str(s).is_ok());
-    rec(h::ContentLength::from_str(s).is_ok());
     rec(h::parse_extended_value(s).is_ok());
     rec(actix_http::Method::from_str(s).is_ok());
     rec(!matches!(h::DispositionType::from(s), h::DispositionType::Ext(_)));
@@ -83,10 +82,13 @@ fn accessors_exec(name: &'static str, input: &[u8]) -> Out {
     c |= (matches!(req.chunked(), Ok(true)) as u32) << 3;
     c |= (req.head().upgrade() as u32) << 4;
     c |= (req.head().connection_type() as u32) << 5;
-    let hr = to_http_request(&req);
-    c |= (hr.cookies().map(|c| c.len().min(3)).unwrap_or(7) as u32) << 8;
-    c |= (hr.cookie("a").is_some() as u32) << 12;
-    c |= (hr.get_header::<h::ContentType>().is_some() as u32) << 13;
+    c |= with_http_request(&req, |hr| {
+        let mut c = 0u32;
+        c |= (hr.cookies().map(|c| c.len().min(3)).unwrap_or(7) as u32) << 8;
+        c |= (hr.cookie("a").is_some() as u32) << 12;
+        c |= (hr.get_header::<h::ContentType>().is_some() as u32) << 13;
+        c
+    });
     class(format!("acc={c:04x}"))
 }
 
@@ -156,7 +158,7 @@ fn specs() -> Vec<Spec> {
         Spec { label: "AcceptCharset", name: "accept-charset", method: "GET", f: parse_as::<h::AcceptCharset>, alphabet: QUAL, seeds: vec![plain("v", b"iso-8859-5, unicode-1-1;q=0.8, *;q=0.1")], max: [4, 5] },
         Spec { label: "AcceptEncoding", name: "accept-encoding", method: "GET", f: parse_as::<h::AcceptEncoding>, alphabet: QUAL, seeds: vec![plain("v", b"gzip;q=1.0, identity; q=0.5, *;q=0")], max: [4, 5] },
         Spec { label: "AcceptLanguage", name: "accept-language", method: "GET", f: parse_as::<h::AcceptLanguage>, alphabet: LANG, seeds: vec![plain("v", b"da, en-gb;q=0.8, en;q=0.7, zh-Hant-CN-x-private")], max: [4, 5] },
-        Spec { label: "Allow", name: "allow", method: "GET", f: parse_as::<h::Allow>, alphabet: ALLOW, seeds: vec![plain("v", b"GET, HEAD, PUT")], max: [4, 5] },
+        Spec { label: "Allow", name: "allow", method: "GET", f: parse_as::<h::Allow>, alphabet: ALLOW, seeds: vec![plain("v", b"GET, HEAD, PUT")], max: [4, 6] },
         Spec {
             label: "CacheControl",
             name: "cache-control",
@@ -179,7 +181,7 @@ fn specs() -> Vec<Spec> {
             max: [4, 5],
         },
         Spec { label: "ContentLanguage", name: "content-language", method: "GET", f: parse_as::<h::ContentLanguage>, alphabet: LANG, seeds: vec![plain("v", b"mi, en-US;q=0.5")], max: [4, 5] },
-        Spec { label: "ContentLength", name: "content-length", method: "POST", f: parse_as::<h::ContentLength>, alphabet: CLEN, seeds: vec![seed("v", &[P::Dec(b"42")])], max: [4, 5] },
+        Spec { label: "ContentLength", name: "content-length", method: "POST", f: parse_as::<h::ContentLength>, alphabet: CLEN, seeds: vec![seed("v", &[P::Dec(b"42")])], max: [4, 6] },
         Spec {
             label: "ContentRange",
             name: "content-range",
@@ -187,7 +189,7 @@ fn specs() -> Vec<Spec> {
             f: parse_as::<h::ContentRange>,
             alphabet: CRANGE,
             seeds: vec![seed("v", &[P::B(b"bytes "), P::Dec(b"0"), P::B(b"-"), P::Dec(b"499"), P::B(b"/"), P::Dec(b"1234")]), plain("star", b"bytes */1234")],
-            max: [4, 5],
+            max: [4, 6],
         },
         Spec { label: "ContentType", name: "content-type", method: "GET", f: parse_as::<h::ContentType>, alphabet: MIME, seeds: vec![plain("v", b"multipart/form-data; charset=\"utf-8\"; boundary=x+y")], max: [4, 5] },
         Spec { label: "Date", name: "date", method: "GET", f: parse_as::<h::Date>, alphabet: DATE, seeds: date(), max: [4, 5] },
@@ -195,10 +197,10 @@ fn specs() -> Vec<Spec> {
         Spec { label: "IfModifiedSince", name: "if-modified-since", method: "GET", f: parse_as::<h::IfModifiedSince>, alphabet: DATE, seeds: date(), max: [3, 4] },
         Spec { label: "IfUnmodifiedSince", name: "if-unmodified-since", method: "GET", f: parse_as::<h::IfUnmodifiedSince>, alphabet: DATE, seeds: date(), max: [3, 4] },
         Spec { label: "LastModified", name: "last-modified", method: "GET", f: parse_as::<h::LastModified>, alphabet: DATE, seeds: date(), max: [3, 4] },
-        Spec { label: "ETag", name: "etag", method: "GET", f: parse_as::<h::ETag>, alphabet: ETAG, seeds: vec![plain("weak", b"W/\"xyzzy\""), plain("strong", b"\"a b\"")], max: [4, 5] },
-        Spec { label: "IfMatch", name: "if-match", method: "GET", f: parse_as::<h::IfMatch>, alphabet: ETAG, seeds: etags(), max: [4, 5] },
-        Spec { label: "IfNoneMatch", name: "if-none-match", method: "GET", f: parse_as::<h::IfNoneMatch>, alphabet: ETAG, seeds: etags(), max: [4, 5] },
-        Spec { label: "IfRange", name: "if-range", method: "GET", f: parse_as::<h::IfRange>, alphabet: IFRANGE, seeds: vec![plain("etag", b"W/\"xyzzy\""), plain("date", b"Sat, 29 Oct 1994 19:43:31 GMT")], max: [4, 5] },
+        Spec { label: "ETag", name: "etag", method: "GET", f: parse_as::<h::ETag>, alphabet: ETAG, seeds: vec![plain("weak", b"W/\"xyzzy\""), plain("strong", b"\"a b\"")], max: [4, 6] },
+        Spec { label: "IfMatch", name: "if-match", method: "GET", f: parse_as::<h::IfMatch>, alphabet: ETAG, seeds: etags(), max: [4, 6] },
+        Spec { label: "IfNoneMatch", name: "if-none-match", method: "GET", f: parse_as::<h::IfNoneMatch>, alphabet: ETAG, seeds: etags(), max: [4, 6] },
+        Spec { label: "IfRange", name: "if-range", method: "GET", f: parse_as::<h::IfRange>, alphabet: IFRANGE, seeds: vec![plain("etag", b"W/\"xyzzy\""), plain("date", b"Sat, 29 Oct 1994 19:43:31 GMT")], max: [4, 6] },
         Spec {
             label: "Range",
             name: "range",
@@ -209,7 +211,7 @@ fn specs() -> Vec<Spec> {
                 seed("v", &[P::B(b"bytes="), P::Dec(b"0"), P::B(b"-"), P::Dec(b"499"), P::B(b", -"), P::Dec(b"500"), P::B(b","), P::Dec(b"9500"), P::B(b"-")]),
                 plain("other", b"items=1-3"),
             ],
-            max: [4, 5],
+            max: [4, 6],
         },
     ]
 }
